@@ -10,6 +10,7 @@ import (
 	"runtime"
 	"runtime/debug"
 	"runtime/pprof"
+	"slices"
 	"sort"
 	"strconv"
 	"strings"
@@ -249,7 +250,7 @@ func cmdRun(args []string) int {
 		// confirmed violations
 		for i, v := range ex.violations {
 			path := filepath.Join(outDir, fmt.Sprintf("cex-%s-%d.json", e.Name, i))
-			writeJSON(path, map[string]any{"property": id, "entry": e.Name, "label": v.Label, "model": v.Model, "var_order": v.VarOrder, "decisions": v.Decisions, "stack": v.Stack, "notes": v.Notes})
+			writeJSON(path, map[string]any{"property": id, "tier": *tier, "entry": e.Name, "label": v.Label, "model": v.Model, "var_order": v.VarOrder, "decisions": v.Decisions, "stack": v.Stack, "notes": v.Notes})
 			ok, detail := confirmed[i], details[i]
 			if ok {
 				fmt.Printf("VIOLATION property=%s replay=%s\n", id, path)
@@ -280,7 +281,7 @@ func cmdRun(args []string) int {
 			r.Known = append(r.Known, kid)
 			path := filepath.Join(outDir, fmt.Sprintf("known-%s-%s.json", e.Name, kid))
 			v := vs[0]
-			writeJSON(path, map[string]any{"property": id, "entry": e.Name, "label": v.Label, "known": kid, "model": v.Model, "var_order": v.VarOrder, "decisions": v.Decisions, "stack": v.Stack})
+			writeJSON(path, map[string]any{"property": id, "tier": *tier, "entry": e.Name, "label": v.Label, "known": kid, "model": v.Model, "var_order": v.VarOrder, "decisions": v.Decisions, "stack": v.Stack})
 		}
 		sort.Strings(r.Known)
 		if es == 0 {
@@ -452,6 +453,7 @@ func cmdReplay(args []string) int {
 	var cex struct {
 		Entry string            `json:"entry"`
 		Label string            `json:"label"`
+		Tier  string            `json:"tier"`
 		Model map[string]uint64 `json:"model"`
 	}
 	if err := json.Unmarshal(b, &cex); err != nil {
@@ -464,6 +466,13 @@ func cmdReplay(args []string) int {
 		return 2
 	}
 	cfg := &Config{MaxSteps: 200_000_000, Unwind: 256, knownIDs: map[string]bool{}, skipInitPkgs: map[string]bool{}}
+	// the counterexample records the tier it was found in (harness bounds differ)
+	cfg.Thorough = cex.Tier == "thorough"
+	for _, a := range args[2:] {
+		if a == "--thorough" {
+			cfg.Thorough = true
+		}
+	}
 	if err := loadProgram(h, cfg); err != nil {
 		fmt.Println("cannot load:", err)
 		return 2
@@ -473,7 +482,7 @@ func cmdReplay(args []string) int {
 			continue
 		}
 		ok, detail := confirmConcrete(cfg, e, &Violation{Label: cex.Label, Model: cex.Model})
-		if len(args) > 2 && args[2] == "--native" {
+		if slices.Contains(args[2:], "--native") {
 			nat, out, nerr := nativeReplay(h, cfg, e, file, os.Getenv("VX_KEEP") != "")
 			fmt.Printf("native replay: reproduced=%v err=%v\n", nat, nerr)
 			if true {
